@@ -5,7 +5,7 @@ from harness import common, gen, api
 from harness.common import fhex, flist, ftable, ftable2, cbool
 
 LEVEL = "proof"
-IMPORTS = ["From MuxV Require Import Base.Num Base.Vec3 Base.FInst Model.Grid Model.GridF Model.QCurve Model.QCurveF Model.Kuchemann Model.KuchemannF Model.SegSort Model.SegSortF Model.Wings Model.Swept Model.SweptF Model.Reid Model.ReidF Model.Gather Model.GatherF."]
+IMPORTS = ["From MuxV Require Import Base.Num Base.Vec3 Base.FInst Model.Grid Model.GridF Model.QCurve Model.QCurveF Model.Kuchemann Model.KuchemannF Model.SegSort Model.SegSortF Model.Wings Model.LoadOrder Model.Swept Model.SweptF Model.Reid Model.ReidF Model.Gather Model.GatherF."]
 
 
 # ------------------------------------------------------------------ grid correspondence
@@ -332,6 +332,16 @@ def wing_tree_cases(chk, MX, n, cases, descr):
                     chk.violation("wings-order:geometry", dict(kind="wings-order", aircraft=ac, order=keys, segment=nm_))
                     break
             chk.count("wings-order:shuffled")
+            # Model/LoadOrder.v: the order of attachment recomputed from (position in the dictionary, ID, connected-to ID)
+            idx = {k_: i_ for i_, k_ in enumerate(keys)}
+            live_order = []
+            for nm_ in a2.wing_segments:
+                b_ = nm_.rsplit("_", 1)[0]
+                if idx[b_] not in live_order:
+                    live_order.append(idx[b_])
+            cases.append("chk_load_order [%s] [%s]" % ("; ".join("(%d%%nat, %d%%nat, %d%%nat)" % (idx[k_], int(wings[k_]["ID"]), int(wings[k_].get("connect_to", {}).get("ID", 0))) for k_ in keys),
+                                                       "; ".join("%d%%nat" % i_ for i_ in live_order)))
+            descr.append(dict(what="load-order", order=keys, aircraft=ac2))
         except Exception as e:
             chk.violation("wings-order:rejected", dict(kind="wings-order", aircraft=ac, order=keys, error=repr(e)))
         k0 = len(descr)
@@ -617,7 +627,7 @@ def run(chk):
         "nodes / control_points from quarter-chord point, ll_offset, chord and section angles",
         "independent oracle for the quarter-chord curve: scipy.quad integration of the documented curve (dx/ds=-b tan(sweep), dihedral rotating the "
         "span direction, connection point with mirrored y offset) written separately from the implementation",
-        "correspondence: Model/Kuchemann.v on binary64 vs the stored table of Kuchemann offsets (bit-exact; cos, tan, float power as oracles); dihedral and sweep derived from quarter-chord points (bit-exact; arctan2, arctan, scalar square as oracles)", "correspondence: Model/Swept.v on binary64 vs the swept unit vectors stored at the nodes (_u_a_dist, _u_n_dist, _u_s_dist) and at the control points (u_a_cp, u_n_cp, u_s_cp; 2^-30), Model/SegSort.v vs the order of the left-hand segments, Model/Wings.v vs the grouping of the half-segments into wings (_segments_in_wings, _num_wings, wing_ID) on the generated aircraft and on random segment trees", "not modelled: callables; scipy.integrate.quad is an oracle"])
+        "correspondence: Model/Kuchemann.v on binary64 vs the stored table of Kuchemann offsets (bit-exact; cos, tan, float power as oracles); dihedral and sweep derived from quarter-chord points (bit-exact; arctan2, arctan, scalar square as oracles)", "correspondence: Model/Swept.v on binary64 vs the swept unit vectors stored at the nodes (_u_a_dist, _u_n_dist, _u_s_dist) and at the control points (u_a_cp, u_n_cp, u_s_cp; 2^-30), Model/SegSort.v vs the order of the left-hand segments, Model/LoadOrder.v vs the order in which the segments of a shuffled \"wings\" dictionary are attached, Model/Wings.v vs the grouping of the half-segments into wings (_segments_in_wings, _num_wings, wing_ID) on the generated aircraft and on random segment trees", "not modelled: callables; scipy.integrate.quad is an oracle"])
     rng = chk.rng
     cases, descr = [], []
     n = chk.q(40, 400)
